@@ -92,7 +92,7 @@ def handleSync (c : J) : Res := Id.run do
   r := judge r "C11" (oracleC11 s)
   r := judge r "C12" (oracleC12 s)
   r := judge r "C13" (oracleC13 s)
-  r := judge r "C15" (oracleC15 s (c.opt "customizeCached"))
+  r := judge r "C15" (oracleC15 s (c.opt "customizeCached") (c.opt "customizeExpected"))
   r := judge r "C16" (oracleC16 s)
   r := judge r "C17" (oracleC17 s)
   for x in s.calls do
